@@ -515,15 +515,28 @@ func r09_5(c *RC) {
 			}
 			n++
 			imp, set := false, false
+			isLenNonce := func(v ssa.Value) bool {
+				cl, ok := v.(*ssa.Call)
+				if !ok || calleeNameAny(cl) != "len" {
+					return false
+				}
+				f := fieldOrigin(cl.Common().Args[0])
+				return f != nil && f.Name() == "implicitNonce"
+			}
 			for _, e := range controllingEdges(in.Block()) {
-				if f := fieldOrigin(e.If.Cond); f != nil && f.Name() == "enableImplicitNonce" && e.Idx == 0 {
+				atom, neg := condAtom(e.If.Cond)
+				holds := (e.Idx == 0) != neg // truth of atom on this edge
+				if f := fieldOrigin(atom); f != nil && f.Name() == "enableImplicitNonce" && holds {
 					imp = true
 				}
-				if bo, ok := e.If.Cond.(*ssa.BinOp); ok && bo.Op == token.EQL && e.Idx == 1 {
-					if cl, ok := bo.X.(*ssa.Call); ok && calleeNameAny(cl) == "len" {
-						if k, ok := constInt(bo.Y); ok && k == 0 {
-							set = true
-						}
+				// len(nonce) != 0 / > 0 on this edge, however it is spelled
+				for _, op := range []token.Token{token.NEQ, token.GTR} {
+					want := op
+					if e.Idx == 1 {
+						want = map[token.Token]token.Token{token.NEQ: token.EQL, token.GTR: token.LEQ}[op]
+					}
+					if cmpForm(e.If.Cond, want, isLenNonce, isZero) {
+						set = true
 					}
 				}
 			}
